@@ -354,3 +354,17 @@ impl Job {
 		self.control(Control::UnsetErrorHandler)
 	}
 }
+
+/// Verification hook: send one control at an explicit priority (0 normal, 1 high, 2 urgent).
+#[cfg(watchexec_verif)]
+impl Job {
+	#[doc(hidden)]
+	pub fn verif_send(&self, control: Control, priority: u8) -> Ticket {
+		let priority = match priority {
+			0 => Priority::Normal,
+			1 => Priority::High,
+			_ => Priority::Urgent,
+		};
+		self.send_controls([control], priority)
+	}
+}
